@@ -42,13 +42,18 @@ def main():
              'first': [l for l in lines if l.startswith('VIOLATION')][:3], 'wall_s': round(time.time() - t0)}
         print(p, json.dumps(d, indent=1))
         if only:
+            rec.setdefault('detection_targeted', {})[p] = dict(d, only=only, note='re-run after the checks were strengthened, restricted to the case ids matching `only`')
+            rec.setdefault('ran', []).append("VERIF_REPO=<patched copy of /repo> ./vcheck %s --tier %s --only '%s' -> rc=%d, %d VIOLATION lines" % (p, tier, only, rc, d['violations']))
             continue
         det[p] = d
         rec.setdefault('ran', []).append('VERIF_REPO=<patched copy of /repo> ./vcheck %s --tier %s -> rc=%d, %d VIOLATION lines' % (p, tier, rc, d['violations']))
     if not only:
         rec['detection'] = det
-        rec['detected_by'] = sorted(p for p in det if det[p]['rc'] == 1 and det[p]['violations'] > 0)
-        json.dump(rec, open(mf, 'w'), indent=1)
+    allv = dict(rec.get('detection', {}))
+    hits = set(p for p in allv if allv[p]['rc'] == 1 and allv[p]['violations'] > 0)
+    hits |= set(p for p, v in rec.get('detection_targeted', {}).items() if v['rc'] == 1 and v['violations'] > 0)
+    rec['detected_by'] = sorted(hits)
+    json.dump(rec, open(mf, 'w'), indent=1)
     shutil.rmtree(run, ignore_errors=True)
     return 0
 
